@@ -141,21 +141,29 @@ def run_stages(prop, cfg, tier, repo, seed, known):
         for fn, meta in fns.items():
             if prop not in meta.get('props', g.get('props', [])):
                 continue
-            ws = [w for w in by_fn.get(fn, []) if obligation_prop_ok(w, prop, meta)]
+            ws = [w for w in by_fn.get(fn, []) if obligation_prop_ok(w, prop, meta, cfg)]
             n = r['cases'].get(fn, 0)
+            def _known(w):
+                return any(k['obligation'] == w['obligation'] and (k['at'] == '*' or k['at'] == w['input'] or (k['at'].startswith('class=') and (' ' + k['at']) in (' ' + w['input']))) for k in known)
+            unknown_ws = [w for w in ws if not _known(w)]
             ob = {'id': 'bounded/%s/%s' % (g['name'], fn), 'class': 'bounded', 'backend': 'native bounded contract driver',
-                  'bound': meta.get('bound', g.get('bound', '')), 'cases': n, 'status': 'discharged' if not ws and n > 0 else 'failed'}
+                  'bound': meta.get('bound', g.get('bound', '')), 'cases': n,
+                  'status': 'discharged' if not ws and n > 0 else ('known-finding' if not unknown_ws and n > 0 else 'failed')}
             rep['obligations'].append(ob)
             if n == 0 and not ws:
                 rep['tool_limits'].append('bounded driver %s/%s evaluated zero cases' % (g['name'], fn))
-            for w in ws[:3]:
+            shown = 0
+            for w in ws:
                 oid = w['obligation']
                 rec = {'obligation': oid, 'at': w['input'], 'message': 'bounded contract check failed: observed %s, required %s' % (w['observed'], w['required']),
                        'repo_loc': meta.get('where'), 'clause': w['required'], 'rendered': '', 'witness': w, 'native': True, 'unit': g['name'], 'function': fn}
-                kf = next((k for k in known if k['obligation'] == oid and (k['at'] == '*' or k['at'] == w['input'])), None)
+                # a finding may name one exact input, or a class tag the driver prints (`class=<tag>`)
+                kf = next((k for k in known if k['obligation'] == oid and (k['at'] == '*' or k['at'] == w['input'] or (k['at'].startswith('class=') and (' ' + k['at']) in (' ' + w['input'])))), None)
                 if kf:
-                    rep['known_hits'].append((kf, rec))
-                else:
+                    if not any(k0 is kf for k0, _ in rep['known_hits']):
+                        rep['known_hits'].append((kf, rec))
+                elif shown < 3:
+                    shown += 1
                     rep['violations'].append(rec)
     return rep
 
@@ -227,7 +235,10 @@ def run_kani(prop, repo, rep):
                 rep['tool_limits'].append('kani harness %s did not complete: %s' % (hname, out[-400:].replace('\n', ' | ')))
 
 
-def obligation_prop_ok(w, prop, meta):
+def obligation_prop_ok(w, prop, meta, cfg=None):
+    only = (cfg or {}).get('only_kinds')
+    if only and w['obligation'].split('#')[-1] not in only:
+        return False
     tag = meta.get('kinds')
     if not tag:
         return True
